@@ -706,6 +706,6 @@ func judgeOneshot(c *Ctx, sc *Scenario, site *Site, base []byte, engineB bool) *
 
 func init() {
 	Register(&Prop{ID: "C10", Check: checkC10, Replay: judgeC10,
-		Rule: "fault-free baseline, then (a) enumeration: for small generated worlds every output offset of each of the four streaming git commands x {exit 1, exit 128, SIGKILL, SIGPIPE} (all four at offsets 0 and end, rotating in between), 'fails after complete output' x 8 statuses, and death after k stdin lines; (b) exploration: 1-3 random faults combined with chunking / delays / stalls, one-shot git command failures through the proxy (real processes), invalid option values and ROOTs, shallow and absent repositories, removed objects; a sample of single faults is mirrored on the real binary behind the proxy (engine B). non-trivial: the fault actually fired (the peer reached the fault point / the proxy rule matched / the removed object was needed); distinct by scenario hash",
+		Rule:       "fault-free baseline, then (a) enumeration: for small generated worlds every output offset of each of the four streaming git commands x {exit 1, exit 128, SIGKILL, SIGPIPE} (all four at offsets 0 and end, rotating in between), 'fails after complete output' x 8 statuses, and death after k stdin lines; (b) exploration: 1-3 random faults combined with chunking / delays / stalls, one-shot git command failures through the proxy (real processes), invalid option values and ROOTs, shallow and absent repositories, removed objects; a sample of single faults is mirrored on the real binary behind the proxy (engine B). non-trivial: the fault actually fired (the peer reached the fault point / the proxy rule matched / the removed object was needed); distinct by scenario hash",
 		Components: componentsA})
 }
